@@ -19,7 +19,8 @@ that no statement writes into an object aliasing self or a parameter (in-place N
 arrays); (R2) for every in-place entry point (convert_to_*, item assignment, out= in __array_ufunc__, handlers with out= or a
 destination array) a two-state walk over the statement structure shows that no explicit raise and no call of a raising
 validator is reachable once the target's unit or data have been written - so a refused call leaves its target as it was;
-(R3) the in-place conversion and its copying twin take factor and offset from the same calls."""
+(R3) the in-place conversion and its copying twin take factor and offset from the same calls.
+(R1, extended) the set of receiver-mutating methods of Unit / unyt_array is derived from the source by fixpoint (attribute stores on self, in-place NumPy calls, calls of other mutators) and a call of one of them on self or a parameter inside a copying API is a write; (R4) with out= / augmented assignment the simplification coefficient is applied to the target once and the returned object is not scaled again (shared with C04-R3)."""
 LEVEL_NOTE = """Undecided: exceptions raised inside NumPy after a partial write; numerical equality of in-place and copying
 results (C03-R2 / C09-R4,R5 decide the structural part). Accepted idioms (named in rules/c18.py): value-preserving int->float
 retyping of out= before validation; memoisation of Unit._latex_repr; the final unit conversion after an in-place equivalence
